@@ -90,6 +90,25 @@ func c02Run(c *Ctx) {
 			c02Judge(c, cs)
 		}
 	}
+	// 2b. the same operators applied directly to literal operands (no variable in between)
+	lits := []string{"nil", True(), False(), "0", "1", "0.5", "63", "64", "3", `""`, `"a"`, `"5"`, `"\u09e6\u09eb"`, `"a b"`, "[]", "[1]", "{}", "{k: 1}", "9223372036854775808", B["len"]}
+	for _, a := range lits {
+		for _, op := range c02UnOps {
+			if c.Mine() {
+				c02Judge(c, &Case{Gen: "literal-operands", Src: Print(op+a) + "\n" + Print(op+" "+op+a) + "\n", X: map[string]string{"op": "u" + op, "ka": "lit"}})
+			}
+		}
+		if strings.HasPrefix(a, "{") {
+			continue
+		}
+		for _, b := range lits {
+			for _, op := range c02BinOps {
+				if c.Mine() {
+					c02Judge(c, &Case{Gen: "literal-operands", Src: Print(a+" "+op+" "+b) + "\n", X: map[string]string{"op": op, "ka": "lit", "kb": "lit"}})
+				}
+			}
+		}
+	}
 	// 3. equality laws (no model needed): total, boolean, symmetric, != is the negation, reflexive on non-NaN
 	for _, a := range pool {
 		for _, b := range pool {
@@ -337,12 +356,12 @@ func c02BigPow(c *Ctx, cs *Case) {
 func init() {
 	register(&CheckDef{
 		ID:          "C02",
-		Rule:        "programs `ধরি a = <producer>; ধরি b = <producer>; দেখাও a op b;` for every binary operator x every ordered pair of a 51-value pool (all value kinds, boundary magnitudes, literal vs computed producers), unary forms, chains of two and three prefix operators, reflexive forms, equality laws (symmetry, negation, reflexivity) for every pair, random doubles by bit pattern, random integers under bitwise operators, random nested expressions, exact integer powers against math/big; each compared with refborno's expected value or fault (stdout numerals by read-back, first diagnostic by category and line, exit status). Non-trivial = distinct program text whose comparison was decided (not skipped out of domain).",
+		Rule:        "programs `ধরি a = <producer>; ধরি b = <producer>; দেখাও a op b;` for every binary operator x every ordered pair of a 51-value pool (all value kinds, boundary magnitudes, literal vs computed producers), unary forms, the same operators applied directly to 20 literal operands (no variable in between), chains of two and three prefix operators, reflexive forms, equality laws (symmetry, negation, reflexivity) for every pair, random doubles by bit pattern, random integers under bitwise operators, random nested expressions, exact integer powers against math/big; each compared with refborno's expected value or fault (stdout numerals by read-back, first diagnostic by category and line, exit status). Non-trivial = distinct program text whose comparison was decided (not skipped out of domain).",
 		Assumptions: []string{"Go's float64 arithmetic and math.Mod/math.Pow in the harness are IEEE-754 (math.Pow additionally cross-checked against math/big on exact integer powers)", "the absolute result of arithmetic on numeric-looking strings, of == on two distinct containers, and of bitwise operations outside the exactly-representable range is not pinned by the property (skipped, counted)"},
 		Run:         c02Run,
 		Judge:       c02Judge,
 		MustCount: func(c *Ctx) []string {
-			return []string{"gen:matrix", "gen:unary-chains", "gen:eqlaws", "gen:randdouble", "gen:randbitwise", "gen:nested", "gen:bigpow", "outcome:fault", "outcome:value", "cli_runs"}
+			return []string{"gen:matrix", "gen:unary-chains", "gen:literal-operands", "gen:eqlaws", "gen:randdouble", "gen:randbitwise", "gen:nested", "gen:bigpow", "outcome:fault", "outcome:value", "cli_runs"}
 		},
 	})
 }
